@@ -1806,6 +1806,74 @@ def verify_public_fetch(E, mode="exception"):
     E.contracts.pop(C + "._fetch_cmd", None)
 
 
+# ------------------------------------------------------------------ cache_memlimit (an admin command written through _fetch_cmd)
+
+def verify_cache_memlimit(E, mode="exception", prop_fetch=True):
+    """Client.cache_memlimit: (A) the wrapper hands _fetch_cmd the verb b'cache_memlimit' and a one-item list whose item is the
+    decimal rendering of the caller's integer, without a key prefix, exptime or cas, exactly once, and returns True; a non-integer is
+    rejected with MemcacheIllegalInputError before any exchange. (B) _fetch_cmd itself, run for the verb 'cache_memlimit' over a token
+    list of any length against the generic reply model (items, then any terminal line: OK, an error line, garbage): the command is
+    'cache_memlimit <t1> ...\r\n' sent once, the whole reply and nothing else is consumed at a return, Sync-or-closed at a raise."""
+    install_env(E, mode)
+    E.contracts[C + "._fetch_cmd"] = fetch_contract
+    q = C + ".cache_memlimit"
+    wid, sid, rid_ = pid(E, "wire", q), pid(E, "sync", q), pid(E, "result", q)
+    for ilabel, intv, icons in int_arg_cases("memlimit", 0, 2 ** 63 - 1):
+        E.case_suffix = "/%s" % ilabel
+        st = State()
+        set_faults(st, mode)
+        me, sock0 = mk_client(st, True)
+        st.assume(*icons)
+        st.ghost["fetch_calls"] = []
+        for o in E.run_function(q, st, [intv], {}, selfv=me):
+            s = o.st
+            calls = s.ghost["fetch_calls"]
+            if ilabel in ("str", "None"):
+                ok = not calls and o.kind == "raise" and o.val.cls == "MemcacheIllegalInputError"
+                E.oblige("%s/non-integer-memlimit-is-rejected-before-the-exchange%s" % (wid, E.case_suffix), s, z3.BoolVal(bool(ok)), func=q,
+                         meta={"memlimit_kind": ilabel, "outcome": o.kind})
+                continue
+            if o.kind == "raise" and not calls and o.val.cls == "MemcacheIllegalInputError":
+                E.oblige("%s/an-integer-memlimit-is-not-rejected%s" % (wid, E.case_suffix), s, z3.BoolVal(False), func=q, meta={"memlimit_kind": ilabel})
+                continue
+            if len(calls) != 1:
+                E.oblige("%s/exactly-one-exchange%s" % (wid, E.case_suffix), s, z3.BoolVal(False), func=q, meta={"exchanges": len(calls)})
+                continue
+            c = calls[0]
+            items = E.iter_items(c["keys"], s)
+            nm = z3.simplify(c["name"].t) if isinstance(c["name"], BytesV) else None
+            name_ok = nm is not None and z3.is_string_value(nm) and nm.as_string() == "cache_memlimit"
+            ec = E.truth(c["expect_cas"], s)
+            ec = ec if isinstance(ec, bool) else (True if z3.is_true(z3.simplify(ec)) else (False if z3.is_false(z3.simplify(ec)) else None))
+            kp = c.get("key_prefix")
+            kp_ok = kp is None or (isinstance(kp, BytesV) and z3.is_string_value(z3.simplify(kp.t)) and z3.simplify(kp.t).as_string() == "")
+            ex_ok = c.get("expire") is None or isinstance(c.get("expire"), NoneV)
+            shape = bool(name_ok and items is not None and len(items) == 1 and isinstance(items[0], BytesV) and ec is False and kp_ok and ex_ok)
+            if shape:
+                want = dec(intv.t) if ilabel == "int" else z3.If(intv.t, z3.StringVal("1"), z3.StringVal("0"))
+                goal = items[0].t == want
+            else:
+                goal = z3.BoolVal(False)
+            E.oblige("%s/one-cache_memlimit-command-whose-only-token-is-the-decimal-memlimit,no-prefix,no-exptime%s" % (wid, E.case_suffix), s, goal, func=q,
+                     meta={"memlimit_kind": ilabel})
+            E.oblige("%s/Sync-at-exchange%s" % (sid, E.case_suffix), s, c["sync_at_call"], func=q)
+            if o.kind == "return":
+                E.oblige("%s/post@ret(Sync)%s" % (sid, E.case_suffix), s, sync(E, s, me), func=q)
+                t = E.truth(o.val, s) if isinstance(o.val, BoolV) else False
+                E.oblige("%s/post@ret(cache_memlimit:True)%s" % (rid_, E.case_suffix), s, z3.BoolVal(t) if isinstance(t, bool) else t, func=q)
+            elif is_subclass(o.val.cls, "Exception"):
+                E.oblige("%s/post@raise(Exception:Sync)%s" % (sid, E.case_suffix), s, sync(E, s, me), func=q)
+    E.case_suffix = ""
+    E.contracts.pop(C + "._fetch_cmd", None)
+    if prop_fetch:
+        q = C + "._fetch_cmd"
+        E.contracts[B + ":check_key_helper"] = check_key_contract
+        E.inline |= {C + "._extract_value"}
+        E.case_suffix = "/cache_memlimit,token-list,re-iterable"
+        _fetch_many_case(E, mode, q, "cache_memlimit", False, False)
+        E.case_suffix = ""
+
+
 # ------------------------------------------------------------------ get_many / gets_many wrappers
 
 def fetch_many_contract(E, st, args, kwargs, selfv, site):
